@@ -125,11 +125,12 @@ func krb5MechToken(tokID []byte, msg []byte) []byte {
 }
 
 type c03world struct {
-	w      *ktWorld
-	origin time.Time
-	r      *rand.Rand
-	pacs   *pacFactory
-	n      int
+	garbageN int
+	w        *ktWorld
+	origin   time.Time
+	r        *rand.Rand
+	pacs     *pacFactory
+	n        int
 }
 
 // mechTokenBytes builds the mech token for tok; for AP-REQs it mints a fresh request of the abstract case ap
@@ -197,7 +198,25 @@ func (cw *c03world) headerFor(q *c03Req, s c01Settings) (string, bool, *apMint, 
 	case "badBase64":
 		return "Negotiate !!!not-base64@@@", true, nil, nil
 	case "garbage":
-		return "Negotiate " + base64.StdEncoding.EncodeToString(rbytes(cw.r, 1+cw.r.Intn(120))), true, nil, nil
+		// bytes that are no Kerberos token: random ones, and the things clients really send instead - a bare NTLMSSP message (the
+		// browser's fallback), the same inside the GSS-API framing of the NTLM mechanism, text, some other DER value
+		ntlm := append([]byte("NTLMSSP\x00\x01\x00\x00\x00\x07\x82\x08\xa2"), make([]byte, 24)...)
+		var b []byte
+		cw.garbageN++
+		switch cw.garbageN % 6 { // every kind in turn
+		case 0:
+			b = ntlm
+		case 1:
+			oid := []byte{0x06, 0x0a, 0x2b, 0x06, 0x01, 0x04, 0x01, 0x82, 0x37, 0x02, 0x02, 0x0a}
+			b = append([]byte{0x60, byte(len(oid) + len(ntlm))}, append(oid, ntlm...)...)
+		case 2:
+			b = []byte("this is not a token at all, just text")
+		case 3:
+			b = []byte{0x30, 0x0c, 0x02, 0x01, 0x05, 0x04, 0x07, 'n', 'o', 't', '-', 'k', 'r', 'b'}
+		default:
+			b = rbytes(cw.r, 1+cw.r.Intn(120))
+		}
+		return "Negotiate " + base64.StdEncoding.EncodeToString(b), true, nil, nil
 	}
 	// framed tokens; truncated / mutated start from the canonical NegTokenInit framing
 	class := h.Class
@@ -329,7 +348,7 @@ func cmdC03(args []string) error {
 			return c03Req{Hdr: h, AP: ap, Cookie: "none", Store: "nosm"}
 		}
 		// ---- A. single requests, every header class
-		for _, c := range []string{"none", "otherScheme", "negotiateNoToken", "negotiateNoToken", "badBase64", "garbage", "garbage", "garbage"} {
+		for _, c := range []string{"none", "otherScheme", "negotiateNoToken", "negotiateNoToken", "badBase64", "garbage", "garbage", "garbage", "garbage", "garbage", "garbage", "garbage", "garbage"} {
 			if err := one(base, Q(H(c, "absent", "absent"), nominal)); err != nil {
 				return err
 			}
